@@ -38,8 +38,9 @@ Fixpoint get_by_keypath_t (v : value) (ks : list keypath) : option value :=
       match k, v with
       | KIndex i, VArr l =>
           let len := lenZ l in
-          if ((len <? i) || (len + i <? 0))%Z then None
-          else match nthZ l (if (0 <=? i)%Z then i else len + i)%Z with
+          (* the two expressions of the Value branch of get_by_keypath, as generated from the source *)
+          if GBK_T_REJECT i len then None
+          else match nthZ l (GBK_T_INDEX i len) with
                | Some x => get_by_keypath_t x r
                | None => None
                end
@@ -157,11 +158,12 @@ Definition delete_by_name_t (v : value) (name : list N) : res value :=
   | _ => Err EInvalidJsonType
   end.
 
+(* reference formula (the proofs restate the generated DBI_/DKP_/AI_ definitions in this form: I32.v) *)
 Definition resolve (i len : Z) : Z := if (i <? 0)%Z then (len + i)%Z else i.
 Definition delete_by_index_t (v : value) (i : Z) : res value :=
   match v with
-  | VArr l => let j := resolve i (lenZ l) in
-              if ((0 <=? j) && (j <? lenZ l))%Z then Ok (VArr (remove_nth l (Z.to_nat j))) else Ok v
+  | VArr l => let j := DBI_T_RESOLVE i (lenZ l) in          (* generated from delete_by_index (text branch) *)
+              if DBI_T_KEEP j (lenZ l) then Ok (VArr (remove_nth l (Z.to_nat j))) else Ok v
   | _ => Err EInvalidJsonType
   end.
 
@@ -180,8 +182,8 @@ Fixpoint del_keypath (fuel : nat) (v : value) (ks : list keypath) : option value
   match v, ks with
   | VArr l, KIndex i :: r =>
       let len := lenZ l in
-      let j := resolve i len in
-      if ((j <? 0) || (len <=? j))%Z then None
+      let j := DKP_T_RESOLVE i len in                         (* generated from delete_value_array_by_keypath *)
+      if DKP_T_SKIP j len then None
       else match r with
            | [] => Some (VArr (remove_nth l (Z.to_nat j)))
            | _ => match nth_opt l (Z.to_nat j) with
@@ -216,7 +218,7 @@ Definition clamp (lo hi x : Z) : Z := if (x <? lo)%Z then lo else if (hi <? x)%Z
 Definition array_insert_t (v : value) (pos : Z) (x : value) : value :=
   let items := match v with VArr l => l | other => [other] end in
   let len := lenZ items in
-  let j := Z.to_nat (clamp 0 len (resolve pos len)) in
+  let j := Z.to_nat (AI_CLAMP (AI_RESOLVE pos len) len) in  (* generated from array_insert_jsonb *)
   VArr (firstn j items ++ [x] ++ skipn j items).
 
 Definition object_insert_t (v : value) (k : list N) (x : value) (update : bool) : res value :=
